@@ -2,6 +2,8 @@
 use happylock::collection::{BoxedLockCollection, RefLockCollection, RetryingLockCollection};
 
 use crate::arena::*;
+#[allow(unused_imports)]
+use crate::arena::M;
 use crate::exec::*;
 use crate::json::J;
 use crate::lk::Lk;
@@ -84,6 +86,36 @@ pub fn run(cfg: &RunCfg) -> Report {
 		let keep_log = cfg.only.is_some();
 		let (res, out) = solo(&arena_spec, Policy::ReaderPref, keep_log, |tc| {
 			let w = tc.w.clone();
+			// The same storage is checked again after being changed in place, and after an earlier
+			// rejection on this thread: a verdict must depend on the input alone, not on history.
+			if i % 16 == 0 {
+				use crate::props::tuplefam::mk_m;
+				let (a, _) = mk_m(tc);
+				let (b, _) = mk_m(tc);
+				let (c, _) = mk_m(tc);
+				let mut v: Vec<&M> = vec![&a, &b, &c];
+				let mut arr: [&M; 3] = [&a, &b, &c];
+				for round in 0..3 {
+					let clean_ref = RefLockCollection::try_new(&v).is_some();
+					let clean_boxed = BoxedLockCollection::try_new(arr).is_some();
+					let clean_retry = RetryingLockCollection::try_new(arr).is_some();
+					v[2] = &a;
+					arr[1] = &c;
+					let dup_ref = RefLockCollection::try_new(&v).is_some();
+					let dup_boxed = BoxedLockCollection::try_new(arr).is_some();
+					let dup_retry = RetryingLockCollection::try_new(arr).is_some();
+					v[2] = &c;
+					arr[1] = &b;
+					for (kind, clean, dup) in [("Ref", clean_ref, dup_ref), ("Boxed", clean_boxed, dup_boxed), ("Retrying", clean_retry, dup_retry)] {
+						if !clean {
+							tc.v("C07", "false_duplicate", format!("{kind}::try_new rejected [&a,&b,&c] (round {round}; the same storage held a duplicate before)"));
+						}
+						if dup {
+							tc.v("C07", "duplicate_accepted", format!("{kind}::try_new accepted a list after one slot was overwritten in place with a lock it already lists (round {round}; the same storage was accepted before)"));
+						}
+					}
+				}
+			}
 			let mut rr = Rng::new(seed2);
 			let mut lists: Vec<Vec<MemberSpec>> = Vec::new();
 			lists.push(vec![]);
